@@ -224,7 +224,7 @@ def check_calc_kG0_state(led, replay=None):
     """state-based route: the kernel must receive the caller's state, the quadrature orders and the laminate of the panel
     definition (with its offset) unless a table is supplied"""
     func = PF + 'calc_kG0'
-    from ..kernel import InArray
+    from ..kernel import InArray, user_array
     it, calls = mk()
     for geom, ftab, nxny, fin in itertools.product(('plate', 'cpanel'), ('default', '6x6', 'table'), ('default', 'given'), (True, False)):
         tag = 'state,%s,Fnxny=%s,nx/ny=%s,finalize=%s' % (geom, ftab, nxny, fin)
@@ -236,7 +236,7 @@ def check_calc_kG0_state(led, replay=None):
             it.call(it.getattr(p, 'calc_k0'), [], dict(silent=True))
             del calls[:]
             size = g['num'] * kw['m'] * kw['n']
-            c = InArray('c', shape=(size,))
+            c = user_array('c', shape=(size,))
             args = dict(silent=True, finalize=fin, c=c)
             Fn = None
             if ftab != 'default':
@@ -506,7 +506,7 @@ def check_calc_cA(led):
 
 def check_calc_kT_fint(led):
     """Panel.calc_kT = fkL_num(NLgeom=1) + fkG_num(NLgeom=1) with the caller's state; Panel.calc_fint passes state, laminate, offsets"""
-    from ..kernel import InArray
+    from ..kernel import InArray, user_array
     it, calls = mk()
     for geom, szform, opts in itertools.product(('plate', 'cpanel'), ('default', 'given'), ('defaults', 'table+grid')):
         holder = {}
@@ -520,7 +520,7 @@ def check_calc_kT_fint(led):
                 it.call(it.getattr(p, 'calc_k0'), [], dict(silent=True))
                 del calls[:]
                 skw, sw = sizes(it, szform, g, kw)
-                c = InArray('c', shape=(sw['size'],))
+                c = user_array('c', shape=(sw['size'],))
                 extra = {}
                 exp = dict(F=want['lam.ABD'], nx=kw['m'], ny=kw['n'])
                 if opts == 'table+grid':
@@ -583,3 +583,110 @@ def check_calc_kT_fint(led):
                         probs += [d_ for d_ in pycheck.diff_kernel(r, 'calc_fint', g['model'] + '_num', {}, want) if 'argument' not in d_]
                 report(led, name, func, probs)
     led.solver_time('z3-feasibility', it.solver_time)
+
+
+# --------------------------------------------------------------------------
+FORCED_ZERO = [(0, 2), (1, 2), (2, 0), (2, 1), (0, 5), (5, 0), (1, 5), (5, 1), (3, 2), (2, 3), (4, 2), (2, 4), (3, 5), (4, 5), (5, 3), (5, 4)]
+
+
+def check_one_laminate(led):
+    """Every kernel of one panel integrates the same laminate matrix.  The analytic kernels read panel.lam.ABD, the numeric ones receive
+    panel.F (or the caller's table); with force_orthotropic_laminate the sixteen coupling entries (16, 26 of A, B, D) are zero in BOTH.
+    Used by C02, C03, C08 and as the Python-layer premise of C14 / C15 (analytic == numeric at the undeformed state; closed forms of
+    specially orthotropic plates)."""
+    from ..kernel import InArray, user_array
+    func = PF + '_get_lam_F'
+    led.function(func)
+    it, calls = mk()
+    for geom, force in itertools.product(('plate', 'cpanel'), (False, True)):
+        holder = {}
+
+        def run():
+            del calls[:]
+            p, kw, want, g = build(it, geom, 'uniform', 'none', {})
+            if force:
+                p.attrs['force_orthotropic_laminate'] = True
+            out = {}
+            out['calc_k0'] = it.call(it.getattr(p, 'calc_k0'), [], dict(silent=True))
+            size = it.call(it.getattr(p, 'get_size'), [], {})
+            c = user_array('c', shape=(size,))
+            out['calc_k0(c)'] = it.call(it.getattr(p, 'calc_k0'), [], dict(silent=True, c=c, NLgeom=True))
+            out['calc_kG0(c)'] = it.call(it.getattr(p, 'calc_kG0'), [], dict(silent=True, c=c))
+            out['calc_kT'] = it.call(it.getattr(p, 'calc_kT'), [], dict(silent=True, c=c))
+            out['calc_fint'] = it.call(it.getattr(p, 'calc_fint'), [c], dict(silent=True))
+            holder.update(want=want, p=p)
+            return out
+        for path, out in it.explore(run):
+            name = '%s[%s,force_orthotropic_laminate=%s]/every-kernel-integrates-the-same-laminate' % (func, geom, force)
+            if out[0] != 'return':
+                report(led, name + '/no-exception', func, ['raises %s%s' % (out[1].tname, tuple(str(a)[:80] for a in out[1].eargs))], signature='raise:' + out[1].tname)
+                continue
+            exp = panelctx.LamMatrix(holder['want']['lam.ABD'].spec, 6)
+            if force:
+                for k in FORCED_ZERO:
+                    exp.writes.append((k, P.const(0)))
+            ek = _lamkey(exp)
+            probs = []
+            for route, r in out[1].items():
+                seen = []
+                for t in _kernel_terms(r):
+                    if 'lam.ABD' in t.f['panel']:
+                        seen.append((t.f['fn'] + ' reads panel.lam.ABD', t.f['panel']['lam.ABD']))
+                    if 'Finput' in t.f['args'] or t.f['fn'] in ('fkL_num', 'fkG_num', 'calc_fint'):
+                        seen.append((t.f['fn'] + ' receives', t.f['args'].get('Finput')))
+                if not seen:
+                    probs.append('%s: no kernel term found' % route)
+                for what, m_ in seen:
+                    if not isinstance(m_, panelctx.LamMatrix) or _lamkey(m_) != ek:
+                        probs.append('%s: %s %s, expected %s%s' % (route, what, pycheck.describe(m_), pycheck.describe(exp),
+                                                                  ' with the 16/26 entries of A, B, D set to zero' if force else ''))
+            report(led, name, func, probs, replay=replay_one_laminate if probs else None, signature='one-laminate')
+    led.solver_time('z3-feasibility', it.solver_time)
+
+
+_RPL = {}
+
+
+def replay_one_laminate():
+    """real Panel with force_orthotropic_laminate and an angle-ply stack: analytic k0 against the numerically integrated k0 of the
+    undeformed state (the two kinds of kernel must see the same laminate)"""
+    if 'r' in _RPL:
+        return _RPL['r']
+    from ..pyreplay import run_real
+    script = '''
+import numpy as np
+from compmech.panel import Panel
+res = {}
+for force in (False, True):
+    p = Panel(a=1., b=0.6, stack=[30, -60, 15, 15, -60, 30], plyt=1.25e-4, laminaprop=(142.5e9, 8.7e9, 0.28, 5.1e9, 5.1e9, 5.1e9), m=5, n=6)
+    p.force_orthotropic_laminate = force
+    ka = p.calc_k0(silent=True).toarray()
+    c = np.zeros(p.get_size())
+    kn = p.calc_k0(silent=True, c=c, nx=14, ny=14, NLgeom=True).toarray()
+    res[str(force)] = float(abs(ka - kn).max() / abs(ka).max())
+out = {"relative_difference_analytic_vs_numeric_k0": res}
+'''
+    r = run_real(script, {})
+    d = r.get('relative_difference_analytic_vs_numeric_k0', {})
+    r['reproduced'] = bool(any(v > 1e-9 for v in d.values()) or r.get('raised'))
+    r['input'] = 'plate 1 x 0.6, stack [30,-60,15,15,-60,30], m=5, n=6, force_orthotropic_laminate in {False, True}: calc_k0() vs calc_k0(c=0, nx=ny=14)'
+    _RPL['r'] = r
+    return r
+
+
+def _lamkey(m):
+    # writes of an exact zero are compared by value, whatever numeric type wrote them (0. / 0)
+    eff = {}
+    for k, v in m.writes:
+        v0 = pysym._unwrap0(v)
+        eff[repr(k)] = normal(v0).text() if isinstance(v0, P) else (P.const(v0).text() if isinstance(v0, (int, float)) else repr(v0))
+    return (m.spec.key(), m.n, tuple(sorted(eff.items())))
+
+
+def _kernel_terms(r):
+    out = []
+    top = pysym._flat_terms(r) if isinstance(r, Opaque) else [r]
+    for t in top:
+        w_, ts = pycheck.terms_of(t)
+        out += [x for k_, x in ts if isinstance(x, Opaque) and x.kind == 'kernel']
+    return out
